@@ -280,6 +280,13 @@ def stepD (st : DSt) (fs : List String) : DSt × String :=
       | ["probe", path, op] =>
         -- a fresh wrapping token presented for `op` on `path`: what its policy grants
         (st, if wrapPolicyAllows path op then "allowed" else "denied")
+      | ["probe", path, op, req] =>
+        -- the same when the wrapping was requested by root ("root") or by a token bound to an entity that carries the
+        -- identity policy c18ident ("entity")
+        match req with
+        | "root" => (st, if wrapTokenAllows (fun _ => ["c18ident"]) "" path op then "allowed" else "denied")
+        | "entity" => (st, if wrapTokenAllows (fun _ => ["c18ident"]) "e1" path op then "allowed" else "denied")
+        | _ => (st, "bad-op")
       | ["wused"] =>
         -- whatever the probe did, it went through the use step: the single use is gone
         let (s1, _) := onAfter (initW true 1 []) .other
